@@ -358,8 +358,13 @@ def _returns(an, f, c, env):
             continue
         if n.kind == 'return':
             v = n.ast.value
-            out.add(v.value if isinstance(v, ast.Constant) else src(v)
-                    if v is not None else None)
+            if v is None:
+                out.add(None)
+            else:
+                try:
+                    out.add(const_value(v))
+                except AnalysisError:
+                    out.add(src(v))
             continue
         if i == c.exit:
             out.add(None)
